@@ -1171,6 +1171,9 @@ MUTANTS = [
         self.list.lens[new_region as usize] += 1;
         self.list.lens[*region as usize] -= 1;""",
          expect="C16.e/lru/region-counters-and-tags-follow-list-moves"),
+    dict(id="C02.f-upgrade-keeps-memoised-node-info", prop="C02", file=CG + "database/snapshot.rs",
+         old="        self.query_kind = None;\n        self.node_info = None;\n", new="        self.query_kind = None;\n",
+         expect="C02.f/Snapshot::upgrade_to_exclusive/forgets-every-memoised-column"),
     # ------------------------------------------------------------------ C09.f (D5)
     dict(id="C09.f-D5-fold-heap-in-arbitrary-order", prop="C09", file=ST + "key_of_set_map/cache.rs",
          old="""        let mut ordered = log.iter().collect::<Vec<_>>();
